@@ -135,6 +135,16 @@ def derivations(cx):
     else:
         detail = 'no `if np.any(y < 0)` block'
     okw = bool(ok and ok2 and ok3)
+    # every sample is examined: the statements of the two derivations run under the recorded conditions only
+    # (no sample is skipped on account of its range, its type, ...)
+    if ok2:
+        fn.ctx_ob('FORMULA', 'W: negative events are looked for in every sample', neg[0])
+        if len(ups) == 1:
+            fn.ctx_ob('FORMULA', 'W: update from the most negative event', ups[0])
+    if len(tis) == 1:
+        fn.ctx_ob('FORMULA', 'T: candidate of every sample', tis[0])
+    for u_ in upd + upd2:
+        fn.ctx_ob('FORMULA', 'T: update', u_)
     fn.ob('FORMULA', 'W = (M - log10(T/|r|))/2 for the most negative event r, maximised over samples, never below 0', okw,
           blocks['W'], detail='' if okw else detail, key='W')
     return fn
